@@ -6,6 +6,7 @@ Reads, on every run, from /repo's working tree:
                         Display for Word and Operator, Operator::is_word
   src/lang/parse.rs     Expression::unary_op_precedence / binary_op_precedence
   src/mach/function.rs  Function::opcode_and_arity (name -> arity range)
+  src/lang/lex.rs       the operator merges of collapse_triples / collapse_doubles
   src/lang/error.rs     enum ErrorCode (variant -> number)
   src/lang/mod.rs, src/mach/mod.rs, src/mach/stack.rs   the largest line number, MAX_LINE_LEN, Stack::max_len and is_full's head-room
 and writes coq/Gen/SourceTables.v: the same tables as Gallina list literals over the model's constructors.
@@ -144,6 +145,66 @@ def translate():
     if len(fns) < 30 or oa.count("=> Some(") != len(fns):
         raise Shape("opcode_and_arity: %d arms read, %d present" % (len(fns), oa.count("=> Some(")))
     out.append("Definition src_arity : list (string * (N * N)) :=\n  [" + ";\n   ".join("(%s, (%s, %s))" % (coq_str(n), lo, hi) for n, lo, hi in fns) + "]%N.")
+    # 6b. the operator merges of the scanner's post passes (src/lang/lex.rs collapse_triples / collapse_doubles): which two
+    # operator characters, with / without blanks between them, become which operator
+    lex_rs = open(os.path.join(REPO, "src/lang/lex.rs")).read()
+
+    def blocks(text, start=0):
+        """top-level `if let PAT = EXPR { BODY }` blocks of text: (pattern, expression, body)"""
+        res = []
+        i = start
+        while True:
+            m = re.compile(r"if let (.+?) = (&?\w+\[\d\]) \{").search(text, i)
+            if not m:
+                return res
+            depth, k = 0, m.end() - 1
+            while k < len(text):
+                if text[k] == "{":
+                    depth += 1
+                elif text[k] == "}":
+                    depth -= 1
+                    if depth == 0:
+                        break
+                k += 1
+            res.append((m.group(1), m.group(2), text[m.end():k]))
+            i = k + 1
+
+    def op_of(pat):
+        m = re.fullmatch(r"Token::Operator\(Operator::(\w+)\)", pat)
+        return OPS[m.group(1)] if m and m.group(1) in OPS else None
+
+    def merges(fn, var, first, second, has_ws):
+        body = body_of(lex_rs, "fn " + fn)
+        found = []
+        pushes = 0
+        for pat, expr, inner in blocks(body):
+            pos = int(expr[-2])
+            a = op_of(pat)
+            pushes += inner.count("locs.push(")
+            if a is None:
+                continue          # the GO TO / GO SUB block: identifiers, not operators
+            if has_ws:
+                ws = blocks(inner)
+                if len(ws) != 1 or not ws[0][0].startswith("Token::Whitespace"):
+                    raise Shape("%s: no whitespace test inside the block for %s" % (fn, pat))
+                inner = ws[0][2]
+            for pat2, expr2, inner2 in blocks(inner):
+                b = op_of(pat2)
+                m = re.search(r"locs\.push\(\(index, Token::Operator\(Operator::(\w+)\)\)\)", inner2)
+                if b is None or not m or m.group(1) not in OPS:
+                    raise Shape("%s: unreadable inner block %s" % (fn, pat2))
+                pos2 = int(expr2[-2])
+                if {pos, pos2} != {first, second}:
+                    raise Shape("%s: unexpected positions %d, %d" % (fn, pos, pos2))
+                l, r = (a, b) if pos == first else (b, a)
+                found.append((l, r, OPS[m.group(1)]))
+        return found, pushes
+    tri, tp = merges("collapse_triples", "ttt", 0, 2, True)
+    dbl, dp = merges("collapse_doubles", "tt", 0, 1, False)
+    if len(tri) + 2 != tp or len(dbl) != dp or len(tri) < 4 or len(dbl) < 4:
+        raise Shape("collapse passes: %d + %d merges read, %d + %d pushes present" % (len(tri), len(dbl), tp, dp))
+    out.append("Definition src_triple_merges : list (operator * operator * operator) :=\n  [" + "; ".join("(%s, %s, %s)" % t for t in tri) + "].")
+    out.append("Definition src_double_merges : list (operator * operator * operator) :=\n  [" + "; ".join("(%s, %s, %s)" % t for t in dbl) + "].")
     # 7. error codes
     error_rs = open(os.path.join(REPO, "src/lang/error.rs")).read()
     ec = body_of(error_rs, "pub enum ErrorCode")
